@@ -2,6 +2,8 @@ package main
 
 import (
 	"fmt"
+	"sort"
+	"strings"
 	"go/ast"
 	"go/printer"
 	"go/token"
@@ -226,11 +228,17 @@ func (fv *FuncVC) finish(st *State, where string) {
 		fv.evalCall(fv.defers[i], st)
 	}
 	fv.frames = saved
+	if fv.fi.Contract != nil {
+		fv.applyGhostSets(fv.fi.Contract, st, fv.specScope(fv.entry, fv.entry, false))
+	}
 	if fv.fi.Contract != nil && fv.mode == "full" {
 		for i, c := range fv.fi.Contract.Ensures {
 			g := fv.specBool(c.Expr, fv.specScope(st, fv.entry, true))
 			fv.oblig(st, "post", fmt.Sprintf("post:%d@%s", i+1, where), c.Text, g)
 		}
+	}
+	if fv.fi.Contract != nil && fv.mode == "full" {
+		fv.frameObligations(st, where)
 	}
 	// cover: the exit is reachable (must be SAT)
 	o := fv.oblig(st, "cover", "cover:"+where, "exit reachable", "false")
@@ -673,4 +681,72 @@ func assignedVars(info *types.Info, n ast.Node) []types.Object {
 		return true
 	})
 	return out
+}
+
+// frameObligations: objects allocated at entry and not named by the modifies clause keep their contents.
+func (fv *FuncVC) frameObligations(st *State, where string) {
+	locs := fv.modLocs(fv.fi.Contract.Modifies, fv.specScope(fv.entry, fv.entry, false))
+	byHeap := map[string][]string{}
+	whole := map[string]bool{}
+	for _, l := range locs {
+		if l.heap == "*" {
+			return
+		}
+		if l.ref == "" {
+			whole[l.heap] = true
+		} else {
+			byHeap[l.heap] = append(byHeap[l.heap], l.ref)
+		}
+	}
+	allocEntry := fv.getHeap(fv.entry, "alloc")
+	names := make([]string, 0, len(fv.heapSort))
+	for h := range fv.heapSort {
+		names = append(names, h)
+	}
+	sort.Strings(names)
+	for _, h := range names {
+		if h == "alloc" || whole[h] || strings.HasPrefix(h, "Held$") || (strings.HasPrefix(h, "G$") && fv.ownGhost(h)) {
+			continue
+		}
+		now, before := fv.getHeap(st, h), fv.getHeap(fv.entry, h)
+		if now == before {
+			continue
+		}
+		conds := []string{sx("select", allocEntry, "r")}
+		for _, r := range byHeap[h] {
+			conds = append(conds, mkNot(mkEq("r", r)))
+		}
+		goal := fmt.Sprintf("(forall ((r Ref)) (=> %s (= (select %s r) (select %s r))))", mkAnd(conds...), now, before)
+		fv.oblig(st, "frame", fmt.Sprintf("frame:%s@%s", shortHeap(h), where), "only the locations in the modifies clause change ("+h+")", goal)
+	}
+}
+
+func shortHeap(h string) string {
+	h = strings.ReplaceAll(h, "github.com.benoitkugler.gomacro.", "")
+	return h
+}
+
+// applyGhostSets: `ghostset name expr` — the ghost flag `name` of the object denoted by expr
+// (evaluated in the entry state) is 1 from the exit on. Ghost flags are only ever written this way,
+// so "flag(x) == 1" means "this function has been applied to x".
+func (fv *FuncVC) applyGhostSets(fc *FuncContract, st *State, sc *SpecScope) {
+	for _, gs := range fc.GhostSets {
+		n, err := parseSpecExpr(gs[1])
+		if err != nil {
+			specFail("ghostset: %v", err)
+		}
+		v := fv.specEval(n, sc)
+		h := "G$" + gs[0]
+		fv.heapDecl(h, arraySort(SRef, SInt))
+		fv.setHeap(st, h, sx("store", fv.getHeap(st, h), v.T, "1"))
+	}
+}
+
+func (fv *FuncVC) ownGhost(h string) bool {
+	for _, gs := range fv.fi.Contract.GhostSets {
+		if "G$"+gs[0] == h {
+			return true
+		}
+	}
+	return false
 }
